@@ -23,6 +23,10 @@ class VWebSocketWSGI:
 
     def __call__(self, environ, start_response):
         self.conn = environ['verif.ws']
+        if getattr(self.conn, 'fail_accept', False):
+            # the peer went away before the handshake response could be written
+            self.conn.failed = True
+            raise OSError('peer gone during the WebSocket handshake (scripted)')
         self.conn.accepted = True
         self.s = vsched.get_sched()
         return self.handler(self)
@@ -216,10 +220,12 @@ class TWorld:
         pass        # a WSGI worker cannot observe a vanished client while blocked
 
     # -- websocket ----------------------------------------------------------------------------
-    def ws_open(self, query, headers=(), path='/engine.io/', scheme='http', upgrade_hdrs=None):
+    def ws_open(self, query, headers=(), path='/engine.io/', scheme='http', upgrade_hdrs=None,
+                fail_accept=False):
         # (a WSGI gateway with WebSocket support can upgrade any GET the application decides to
         # upgrade: upgrade_hdrs gives the Upgrade/Connection headers the client actually sent)
         conn = WsConn(self, query, list(headers))
+        conn.fail_accept = fail_accept
         if self.ws_read_timeout:
             conn.read_timeout = self.server.ping_interval + self.server.ping_timeout
         hdrs = list(headers) + (list(upgrade_hdrs) if upgrade_hdrs is not None else
